@@ -42,6 +42,9 @@ func (c *Ctx) Query(ob *Obligation, entryFacts []*Term) string {
 			if included[i] {
 				continue
 			}
+			if a.Lemma > 0 && ob.LemmaIdx > 0 && a.Lemma >= ob.LemmaIdx {
+				continue
+			}
 			if a.Sym == "" || strings.Contains(need, a.Sym) {
 				included[i] = true
 				need += a.Text
@@ -159,7 +162,7 @@ func solveOne(c *Ctx, ob *Obligation, entryFacts []*Term, dir string, idx int, t
 			cancel()
 			break
 		}
-		if x.res == "unknown" || best.res == "" {
+		if x.res == "unknown" || (x.res == "error" && best.res != "unknown") {
 			best = x
 		}
 		if x.secs > ob.Secs {
